@@ -225,7 +225,10 @@ def gen_blocks(rng, strings=None, n_logs=None, entries=()):
     for tag, payload in blocks:
         if isinstance(payload, tuple):
             if payload[0] == 'logs':
-                payload = plistlib.dumps({'Events': payload[1]}, fmt=plistlib.FMT_BINARY)
+                # (half of the dumps list the keys of their records unsorted, in a shuffled order)
+                unsorted = rng.random() < 0.5
+                payload = plistlib.dumps({'Events': logs.reordered(payload[1], 'shuffled') if unsorted else payload[1]},
+                                         fmt=plistlib.FMT_BINARY, sort_keys=not unsorted)
             else:
                 payload = plistlib.dumps(strings.plist(), fmt=plistlib.FMT_BINARY)
         final.append((tag, payload))
